@@ -23,7 +23,7 @@ func init() {
 	fw.Register(&fw.Property{
 		ID:    "C17",
 		Level: "exploration",
-		Rule: "one case = a DB with 3 tables on one stream + generated points + storage split, coalesce interval 60ms; N sets of 2-8 generated queries (different tables, field subsets, LIMITs, time ranges incl. UNTIL in the past, derived fields) " +
+		Rule: "one case = a DB with 3 tables on one stream + generated points + storage split, coalesce interval 60ms; N sets of 2-8 generated queries (different tables, field subsets, LIMITs, time ranges incl. UNTIL in the past, derived fields, memstore-inclusive and disk-only mixed) " +
 			"released together from a barrier (=> shared scans) and each compared bit-for-bit with the same query run alone; every other set contains failing companions (consumer callback returning an error after k rows, already expired deadline) " +
 			"whose failure must not change the other queries' rows or errors; the coalesce hook counts the group sizes actually formed; non-trivial = the set was served by a coalesced group of >=2; distinct by dataset+set hash",
 		Assumptions: []string{"data is quiescent while the sets run", "unordered LIMIT queries are only checked for row count and membership in the full result"},
@@ -57,6 +57,7 @@ type c17Query struct {
 	sql      string
 	table    string
 	limit    bool
+	mem      bool // memstore-inclusive (both options are mixed inside one set)
 	failAt   int  // >=0: consumer callback returns an error at this row
 	expired  bool // already expired deadline
 	solo     *dbh.Result
@@ -101,7 +102,7 @@ func runC17(c *fw.Ctx) {
 			sub.spec = spec
 			sub.cells, _ = spec.Aggregate(d.points)
 			g := genQuery(r, &sub, qOpts{pastUntilBias: true, noSubquery: true})
-			q := &c17Query{sql: strings.Replace(g.SQL, " FROM t", " FROM "+tbl, 1), table: tbl, failAt: -1}
+			q := &c17Query{sql: strings.Replace(g.SQL, " FROM t", " FROM "+tbl, 1), table: tbl, failAt: -1, mem: r.Intn(3) != 0}
 			if g.HasLimit && !g.HasOrder {
 				q.limit = true
 				q.fullSQL = q.sql[:strings.LastIndex(q.sql, " LIMIT ")]
@@ -124,16 +125,16 @@ func runC17(c *fw.Ctx) {
 			// an ungrouped LIMIT query terminates early inside the shared scan itself
 			tbl := []string{"t", "u", "v"}[r.Intn(3)]
 			k := 1 + r.Intn(5)
-			q := &c17Query{sql: fmt.Sprintf("SELECT * FROM %s LIMIT %d", tbl, k), table: tbl, failAt: -1, limit: true, fullSQL: "SELECT * FROM " + tbl}
+			q := &c17Query{sql: fmt.Sprintf("SELECT * FROM %s LIMIT %d", tbl, k), table: tbl, failAt: -1, limit: true, fullSQL: "SELECT * FROM " + tbl, mem: r.Intn(3) != 0}
 			pos := r.Intn(len(qs) + 1)
 			qs = append(qs[:pos], append([]*c17Query{q}, qs[pos:]...)...)
 			c.Obs("ungrouped_limit_companions", 1)
 		}
 		// solo runs (each alone in its coalesce window)
 		for _, q := range qs {
-			q.solo = d.db.Query(q.sql, true)
+			q.solo = d.db.Query(q.sql, q.mem)
 			if q.limit {
-				q.soloFull = d.db.Query(q.fullSQL, true)
+				q.soloFull = d.db.Query(q.fullSQL, q.mem)
 			}
 		}
 		before := zenodb.VerifCounts()
@@ -152,7 +153,7 @@ func runC17(c *fw.Ctx) {
 					ctx, cancel = context.WithDeadline(ctx, time.Now().Add(-time.Second))
 					defer cancel()
 				}
-				results[i] = dbh.RunQuery(ctx, d.db.DB, q.sql, true, func(n int, row *dbh.Row) (bool, error) {
+				results[i] = dbh.RunQuery(ctx, d.db.DB, q.sql, q.mem, func(n int, row *dbh.Row) (bool, error) {
 					if q.failAt >= 0 && n >= q.failAt {
 						return false, errC17Consumer
 					}
@@ -185,6 +186,10 @@ func runC17(c *fw.Ctx) {
 			}
 			if q.expired {
 				tag = " [expired deadline]"
+			}
+			if !q.mem {
+				tag += " [disk only]"
+				c.Obs("disk_only_queries_in_sets", 1)
 			}
 			setSQL = append(setSQL, q.sql+tag)
 			c.HashAdd(q.sql, tag)
